@@ -426,3 +426,36 @@ fn kx_bytes_mut_copy_to_bytes_is_split_to_freeze() {
     core::mem::forget(r);
     core::mem::forget(b);
 }
+
+// @ob props=C01,C03,C07,C13 tier=quick kind=Kinf fns=Bytes::truncate,Bytes::clear,Bytes::advance,Bytes::slice,Bytes::split_off,shared_v_clone
+#[kani::proof]
+#[kani::stub(crate::bytes::without_provenance, crate::bytes::verif_b_wf::without_provenance_contract)]
+fn kx_sharedv_views() {
+    // view operations on a frozen BytesMut (bytes_mut::SHARED_VTABLE): same contracts as the other
+    // shared representation - truncate just shortens (no promotion needed: the block stores the Vec)
+    let (mut b, g) = any_sharedv();
+    let p = g.base as usize + g.off;
+    let a: usize = kani::any();
+    let op: u8 = kani::any();
+    if op == 0 {
+        b.truncate(a);
+        let nl = if a < g.len { a } else { g.len };
+        assert!(b.as_ptr() as usize == p && b.len() == nl && count(&g) == g.k && block_intact(&g));
+    } else if op == 1 {
+        kani::assume(a <= g.len);
+        Buf::advance(&mut b, a);
+        assert!(b.as_ptr() as usize == p + a && b.len() == g.len - a && count(&g) == g.k);
+    } else if op == 2 {
+        let z: usize = kani::any();
+        kani::assume(a < z && z <= g.len);
+        let s = b.slice(a..z);
+        assert!(s.as_ptr() as usize == p + a && s.len() == z - a && count(&g) == g.k + 1 && block_intact(&g));
+        core::mem::forget(s);
+    } else {
+        kani::assume(a > 0 && a < g.len);
+        let r = b.split_off(a);
+        assert!(b.as_ptr() as usize == p && b.len() == a && r.as_ptr() as usize == p + a && r.len() == g.len - a && count(&g) == g.k + 1);
+        core::mem::forget(r);
+    }
+    core::mem::forget(b);
+}
